@@ -352,3 +352,14 @@ PROPS['C07']['verus_only']['worker'] = [r'CommandExecutor::put$', r'CommandExecu
 PROPS['C07']['floor'] = {'quick': 13, 'thorough': 13}
 PROPS['C07']['assumptions'] = PROPS['C07']['assumptions'] + WORKER_ASSUME
 PROPS['C07']['explanation'] += ' Verus (worker): a Put / PutWithTTL whose key is already held when the worker executes it (two puts queued back to back) is refused with KeyAlreadyExists and changes nothing.'
+
+# multi_get and MultiGetMapIterator::next are now under contract (rule T11, Option::map)
+PROPS['C02']['verus_only']['api'] += [r'CacheD::multi_get$', r'MultiGetMapIterator::next']
+PROPS['C02']['not_covered'] = ['overlap of a read with a concurrent write']
+PROPS['C02']['floor'] = {'quick': 18, 'thorough': 24}
+PROPS['C13']['not_covered'] = ['"every pending acknowledgement completes" and "shutdown() never blocks" are queue / schedule properties and are NOT decided here']
+PROPS['C13']['floor'] = {'quick': 17, 'thorough': 17}
+# C03 needs INV_ttl (the ticker holds a key only under its CURRENT expiry) for "a sweep removes only passed expiries"
+PROPS['C03']['kani']['quick'] += ['ttl/put_n2_s2', 'ttl/update_n2_s2', 'ttl/delete_n2_s2']
+PROPS['C03']['kani_meta'].update(BND(['ttl/put_n2_s2', 'ttl/update_n2_s2', 'ttl/delete_n2_s2']))
+PROPS['C03']['floor'] = {'quick': 13, 'thorough': 17}
